@@ -2,7 +2,7 @@
    the functions of libmcount / utils/fstack.c it restates and for what is not modelled). *)
 From Coq Require Import NArith List Bool.
 Import ListNotations.
-Require Import UV.C11.Model UV.C11.StepBase UV.C11.Proofs UV.C11.ProofsDepth UV.C11.ProofsReplay UV.C11.StreamMain.
+Require Import UV.C11.Model UV.C11.StepBase UV.C11.Proofs UV.C11.ProofsDepth UV.C11.ProofsReplay UV.C11.StreamMain UV.C11.StepVfork.
 Local Open Scope N_scope.
 
 (* Every legal program - any mix, order and depth of traced / untraced / PLT calls, tail calls, setjmp,
@@ -46,6 +46,27 @@ Print Assumptions C11_recorded_depth_is_height.
 Theorem C11_replay_depth_all_streams : forall es l, gt_run gt0 es = Some l -> rp_run rp0 es = l.
 Proof. exact replay_depth_all_streams. Qed.
 Print Assumptions C11_replay_depth_all_streams.
+
+(* vfork (prepare_vfork / setup_vfork / restore_vfork): for every legal program in which, at any points, a
+   vfork child runs on the parent's stack and shadow stack - calls, returns, tail calls, PLT calls, setjmp,
+   exceptions caught inside the child, until it execs or exits from any depth, never returning from the
+   function that called vfork - every transfer of control through the trampolines, in the child and in the
+   parent, including BOTH returns of vfork, reaches the real address after the right number of exit hooks. *)
+Theorem C11_vfork_in_step : forall ts, legal_progT ts = true ->
+  exists s obs, lrunT init ts = Some (s, obs) /\ ok_runT ts obs = true.
+Proof. exact vfork_in_step. Qed.
+Print Assumptions C11_vfork_in_step.
+
+(* ... and afterwards the parent's shadow stack is again exactly the list of its live traced functions. *)
+Theorem C11_vfork_parent_shadow : forall ts st' es, rrunT rinit ts = Some (st', es) ->
+  exists s obs, lrunT init ts = Some (s, obs) /\
+    (exc st' = false -> map proj (rs s) = shadow (frames st') /\ mem_top (m s) (frames st')).
+Proof. exact vfork_parent_shadow. Qed.
+Print Assumptions C11_vfork_parent_shadow.
+
+Theorem C11_vfork_sample_legal : legal_progT sample_vfork = true.
+Proof. exact sample_vfork_legal. Qed.
+Print Assumptions C11_vfork_sample_legal.
 
 (* End to end on the model ("the trace closes the abandoned calls or marks the jump so that replay shows
    all later calls at their true depth"): for every legal program the stream of records libmcount has
